@@ -375,9 +375,9 @@ func c05Run(c *Case) {
 func init() {
 	register(&Prop{
 		ID: "C05", Level: "exploration",
-		Rule: "enumerated: every binary operator x every ordered pair of grid values (10 numbers, 10 strings, both bools, null, unset, 2 arrays, 2 objects, 2 regexes, user function, native) x supply mode (literal, variable, document field); every unary operator and every `is` form x every grid value x mode; x op x on one variable; short-circuit with a counting right operand; sampled: random doubles/strings. A case is one (operator, left value) row; distinct_nontrivial counts distinct (operator, left value, right value, mode) points, every point of the table being non-trivial.",
-		NumCases: c05Cases,
-		Run:      c05Run,
+		Rule:          "enumerated: every binary operator x every ordered pair of grid values (10 numbers, 10 strings, both bools, null, unset, 2 arrays, 2 objects, 2 regexes, user function, native) x supply mode (literal, variable, document field); every unary operator and every `is` form x every grid value x mode; x op x on one variable; short-circuit with a counting right operand; sampled: random doubles/strings. A case is one (operator, left value) row; distinct_nontrivial counts distinct (operator, left value, right value, mode) points, every point of the table being non-trivial.",
+		NumCases:      c05Cases,
+		Run:           c05Run,
 		MinConclusive: func(tier string) int { return 400 },
 		Exhaustive: func(tier string) string {
 			return "operator x value-pair grid x supply mode (the enumerated part; the sampled part is not exhaustive)"
